@@ -621,21 +621,21 @@ package geometry
 //@ spec func ptsExactO(q []Point) bool opaque { ptsExact(q) }
 //@ spec func moveExactS(ps []Point, dx real, dy real) bool { forall q []Point :: movedOf(q, ps, dx, dy) ==> ptsExactO(q) }
 //@ lemma bboxSame(a []Point, b []Point, k int)
-//@   props C12
+//@   props C12 C18
 //@   requires samePts(a, b) && 1 <= k && k <= len(a)
 //@   ensures bboxOf(a, k) == bboxOf(b, k)
 //@   induction k from 1
 //@ lemma moveExactElim(ps []Point, q []Point, dx real, dy real)
-//@   props C12
+//@   props C12 C18
 //@   requires moveExactS(ps, dx, dy) && movedOf(q, ps, dx, dy)
 //@   ensures ptsExact(q)
 //@ lemma movedIntro(q []Point, ps []Point, dx real, dy real)
-//@   props C12
+//@   props C12 C18
 //@   requires len(q) == len(ps) && (forall i int :: 0 <= i && i < len(ps) ==> ptAt(q,i) == trP(ptAt(ps,i), dx, dy))
 //@   ensures movedOf(q, ps, dx, dy)
 
 //@ func baseSeries.Move
-//@   props C12 C04 C01 C02 C03 C08
+//@   props C12 C04 C01 C02 C03 C08 C18
 //@   requires series != nil
 //@   requires Exact: moveExactS(series.points, deltaX, deltaY)
 //@   ensures Fresh: result != nil && isBS(result) && !old($alloc)[result]
@@ -673,13 +673,13 @@ package geometry
 //@ spec func lineMovedS(n *Line, l *Line, dx real, dy real) bool {
 //@     n != nil && bsClosed(n.baseSeries) == bsClosed(l.baseSeries) && movedOf(bsPoints(n.baseSeries), bsPoints(l.baseSeries), dx, dy) && IndexInv(n.baseSeries) }
 //@ func Line.Move
-//@   props C12 C04 C01 C02 C03 C08
+//@   props C12 C04 C01 C02 C03 C08 C18
 //@   requires line != nil ==> moveExactS(line.baseSeries.points, deltaX, deltaY)
 //@   ensures Nil: (result == nil) == (line == nil)
 //@   ensures Moved: line != nil ==> (lineMovedS(result, line, deltaX, deltaY) && !old($alloc)[result])
 
 //@ func seriesCopyPoints
-//@   props C12
+//@   props C12 C18
 //@   requires SeriesInv(series)
 //@   ensures Copy: len(result) == sNpts(series) && (forall j int :: 0 <= j && j < len(result) ==> ptAt(result,j) == sPt(series,j))
 //@   loop 0 invariant 0 <= i && i <= len(points) && len(points) == sNpts(series)
@@ -688,7 +688,7 @@ package geometry
 
 // a ring re-created by Move from in-domain translated points satisfies the ring invariant again
 //@ lemma movedRingInv(n Series, ps []Point, dx real, dy real)
-//@   props C12
+//@   props C12 C18
 //@   requires isBS(n) && IndexInv(n) && bsNpts(n) >= 0 && bsClosed(n) && movedOf(bsPoints(n), ps, dx, dy) && moveExactS(ps, dx, dy)
 //@   requires !degenerate(bsPoints(n), true) ==> bsRectOf(n) == bboxOf(bsPoints(n), len(bsPoints(n)))
 //@   ensures RingInv(n)
@@ -703,7 +703,7 @@ package geometry
 //@ spec func ringMoveOK(s Series, dx real, dy real) bool opaque { isBS(s) && bsClosed(s) && moveExactS(bsPoints(s), dx, dy) }
 //@ spec func ringMovedS(n Series, s Series, dx real, dy real) bool opaque { n != nil && isBS(n) && RingInv(n) && movedOf(bsPoints(n), bsPoints(s), dx, dy) }
 //@ func Poly.Move
-//@   props C12
+//@   props C12 C18
 //@   requires poly != nil ==> PolyInv(poly)
 //@   requires (poly != nil && poly.Exterior != nil) ==> ringMoveOK(poly.Exterior, deltaX, deltaY)
 //@   requires poly != nil ==> (forall h int :: 0 <= h && h < len(poly.Holes) ==> ringMoveOK(poly.Holes[h], deltaX, deltaY))
